@@ -1,9 +1,10 @@
-(* C15 - error locations identify the failing card: the compile-time half.
-   Statements only; proofs are in Cao.CompilerTrace.  The runtime half (which trace entry the VM
-   reports) is not covered here. *)
+(* C15 - error locations identify the failing card and its call chain.
+   Statements only. Compile-time half (which location the compiler records, and that it resolves through
+   Module::get_card): proofs in Cao.CompilerTrace. Run-time half (which trace the VM reports): proofs in
+   Cao.C15Proofs, over the VM model Cao.Vm. *)
 From Coq Require Import List NArith ZArith.
 From Cao Require Import ListUtil Bits CardAst Bytecode Compiler Wellformed CompilerProofs CompilerTrace.
-From Cao Require CardEdit.
+From Cao Require CardEdit Vm C15Link C15Proofs.
 Import ListNotations.
 
 (* emit_index_sound, per function: while the cards of a function are compiled (process_cards, i.e. the
@@ -50,3 +51,114 @@ Theorem C15_repeat_count_index_resolves :
     = CardEdit.ROk (CScalarInt 3).
 Proof. exact repeat_count_index_resolves. Qed.
 Print Assumptions C15_repeat_count_index_resolves.
+
+(* ------------------------------------------------------------------ run-time half *)
+
+(* the dispatch loop of `_run` reports an error at the address of the instruction that failed: it returns
+   RErr e a s' only if it reached address a through instructions that all succeeded and then either the
+   instruction that starts at a failed with e leaving the machine in s', or the budget was exhausted before
+   dispatching it (Timeout), or a is past the end of the code *)
+Theorem C15_loop_error_at :
+  forall (F : Vm.fops) (bld : Vm.build) (P : Vm.program) (reenter : N -> Vm.state -> Vm.rres)
+         (fuel : nat) (ip : N) (s : Vm.state) (e : Vm.err) (a : N) (s' : Vm.state),
+    Vm.loop F bld P reenter fuel ip s = Vm.RErr e a s' ->
+    exists s0, C15Proofs.reaches F bld P reenter ip s a s0 /\ C15Proofs.fails_at F bld P reenter a s0 e s'.
+Proof. exact C15Proofs.loop_error_at. Qed.
+Print Assumptions C15_loop_error_at.
+
+(* one instruction - any opcode, any native of the menu, re-entry through run_function included - keeps the
+   invariant that the source address of every call frame is 0 (the frame pushed by Vm::run), the address of a
+   CallFunction instruction (opcode 11), or the position of a label (the frames of Vm::run_function, A-32) *)
+Theorem C15_step_frames_ok :
+  forall (F : Vm.fops) (bld : Vm.build) (P : Vm.program) (reenter : N -> Vm.state -> Vm.rres),
+    (forall ip s, C15Proofs.frames_ok (C15Proofs.src_ok P) s ->
+                  C15Proofs.rres_ok (C15Proofs.src_ok P) (reenter ip s)) ->
+    forall ip s, C15Proofs.frames_ok (C15Proofs.src_ok P) s ->
+                 C15Proofs.sres_ok (C15Proofs.src_ok P) (Vm.step F bld P reenter ip s).
+Proof.
+  intros F bld P reenter H. apply C15Proofs.step_frames_ok.
+  - apply C15Proofs.src_ok_label.
+  - apply C15Proofs.src_ok_call.
+  - exact H.
+Qed.
+Print Assumptions C15_step_frames_ok.
+
+(* error_trace_shape: when `run` fails, the trace is [trace(a)] ++ [trace(src f) | f <- call frames, top first]
+   filtered to the entries that exist, where a is the address of the failing instruction (as in
+   C15_loop_error_at, reached from address 0 with the frame of Vm::run pushed) and every frame source is 0, a
+   CallFunction instruction or a label position - for every program, start state with such frames, budget,
+   build profile and float instance *)
+Theorem C15_error_trace_shape :
+  forall (F : Vm.fops) (bld : Vm.build) (budget : nat) (P : Vm.program) (s : Vm.state)
+         (e : Vm.err) (t : list N) (s' : Vm.state),
+    C15Proofs.frames_ok (C15Proofs.src_ok P) s ->
+    Vm.run F bld budget P s = (Vm.OErr e t, s') ->
+    (t = [] /\ e = Vm.ECallStackOverflow /\ Vm.push_frame s (Vm.mkFrame 0 0 0 None) = None) \/
+    exists a s_fail s_start s0,
+      t = Vm.opt_list (Vm.assoc a (Vm.p_trace P) ::
+                       map (fun f => Vm.assoc (Vm.fr_src f) (Vm.p_trace P)) (Vm.st_calls s_fail)) /\
+      Forall (fun f => C15Proofs.src_ok P (Vm.fr_src f)) (Vm.st_calls s_fail) /\
+      Vm.push_frame s (Vm.mkFrame 0 0 0 None) = Some s_start /\
+      C15Proofs.reaches F bld P (Vm.run_at F bld P false (N.of_nat budget) (pred Vm.max_depth)) 0
+                        (Vm.set_rem s_start (N.of_nat budget)) a s0 /\
+      C15Proofs.fails_at F bld P (Vm.run_at F bld P false (N.of_nat budget) (pred Vm.max_depth)) a s0 e s_fail.
+Proof. exact C15Proofs.error_trace_shape. Qed.
+Print Assumptions C15_error_trace_shape.
+
+(* finding N-C15-2 (known class 12 of C15Check), as a theorem about the model: Vm::run_function turns a failed
+   nested run into NErr with the same payload; the failing address is dropped and the call stack is cut back to
+   the height it had when run_function was entered, so the trace the outer run builds afterwards cannot name
+   the card that failed nor the frames of the nested run *)
+Theorem C15_nested_error_keeps_payload_only :
+  forall (P : Vm.program) (reenter : N -> Vm.state -> Vm.rres) (cn : N -> Vm.state -> Vm.nres)
+         (a h ar : N) (s : Vm.state) (src : N) (s1 s2 : Vm.state) (e : Vm.err) (ip : N) (s3 : Vm.state),
+    Vm.hget (Vm.st_heap s) a = Some (Vm.OFun h ar) ->
+    (Vm.code_len P =? 0)%N = false ->
+    Vm.assoc h (Vm.p_labels P) = Some src ->
+    (N.of_nat (Vm.scount s) <? ar)%N = false ->
+    let f := Vm.mkFrame src (Vm.last_pos P) (N.of_nat (Vm.scount s) - ar) None in
+    Vm.push_frame s f = Some s1 -> Vm.push_frame s1 f = Some s2 ->
+    reenter src s2 = Vm.RErr e ip s3 ->
+    exists s', Vm.run_function P reenter cn (Vm.VObj a) s = Vm.NErr e s' /\
+               Vm.st_calls s' = skipn (length (Vm.st_calls s3) - length (Vm.st_calls s)) (Vm.st_calls s3).
+Proof. exact C15Proofs.nested_error_keeps_payload_only. Qed.
+Print Assumptions C15_nested_error_keeps_payload_only.
+
+(* ------------------------------------------------------------------ the two halves together *)
+
+(* For a program B of the compiler model handed to the VM model (C15Link.to_vm): if the compiler recorded the
+   location l for address a, the first entry of the trace built for a failure at a stands for l *)
+Theorem C15_reported_head_is_compiler_entry :
+  forall (B : compiled) (a : N) (s : Vm.state) (l : loc),
+    C15Link.keys_increasing (p_trace B) = true ->
+    In (a, l) (p_trace B) ->
+    exists rest, map (C15Link.trace_loc B) (Vm.build_trace (C15Link.to_vm B) a s) = l :: rest.
+Proof. exact C15Proofs.reported_head_is_compiler_entry. Qed.
+Print Assumptions C15_reported_head_is_compiler_entry.
+
+(* ... and if that entry was recorded while the cards of function number [cs_fn s0] were compiled
+   (C15_emit_index_sound), trace[0] carries the namespace of that function and resolves, through
+   Module::get_card, to a card of it. What is NOT proved: that every entry of `compile m` stems from the
+   process_cards run of the function that (namespace, function index) designate in m, or is one of the two
+   function-level forms - C15Check.trace_resolves_of checks exactly this on every generated case (code 1). *)
+Theorem C15_error_head_resolves :
+  forall (cards : list card) (s0 s1 : cstate) (B : compiled) (a : N) (ns : list str) (idx : card_index)
+         (vs : Vm.state),
+    (cs_idx s0 = [] \/ exists x, cs_idx s0 = [x]) ->
+    process_cards cards 0 s0 = ROk tt s1 ->
+    (forall new, cs_trace s1 = new ++ cs_trace s0 -> In (a, (ns, idx)) new) ->
+    C15Link.keys_increasing (p_trace B) = true ->
+    In (a, (ns, idx)) (p_trace B) ->
+    (exists rest, map (C15Link.trace_loc B) (Vm.build_trace (C15Link.to_vm B) a vs) = (ns, idx) :: rest) /\
+    ns = cs_ns s0 /\
+    forall (m : module) name f,
+      nth_error (m_functions m) (cs_fn s0) = Some (name, f) -> f_cards f = cards ->
+      exists c, CardEdit.get_card m idx = CardEdit.ROk c.
+Proof.
+  intros cards s0 s1 B a ns idx vs Hidx Hpc Hnew Hk Hin.
+  destruct (emit_index_sound cards s0 s1 Hidx Hpc) as (new & Hsplit & Hall).
+  destruct (Hall a ns idx (Hnew new Hsplit)) as [Hns Hres].
+  split; [exact (@C15Proofs.reported_head_is_compiler_entry B a vs (ns, idx) Hk Hin)|].
+  split; [exact Hns|exact Hres].
+Qed.
+Print Assumptions C15_error_head_resolves.
